@@ -279,6 +279,52 @@ impl FaultScenario {
             }
             Err(e) => out.push(self.viol(format!("healed-reopen-failed:{}", err_category(&e)), e, hist, plan)),
         }
+        if !out.is_empty() {
+            return out;
+        }
+        // "the device stays usable": keep using it. Drop the caches (everything is re-loaded from
+        // the file or rebuilt), read everything back, dirty some metadata again, flush, reopen.
+        let r = w.step(&Op::Shrink);
+        if !r.ok {
+            out.push(self.viol(format!("later-op-failed:shrink-after-heal:{}", err_category(r.err.as_deref().unwrap_or(""))), format!("shrink_caches after healing returned {}", r.short()), hist, plan));
+            return out;
+        }
+        if let Some(d) = w.dev.as_ref() {
+            let got = crate::lin::read_all(d, vsize as usize, 1usize << self.cfg.bs_bits);
+            if let Some(b) = (0..nblk).find(|b| !got[*b].map_or(false, |v| allowed[*b].contains(&v))) {
+                out.push(self.viol(
+                    format!("acknowledged-data-lost-on-the-healed-device:got-{}", classify_word(got[b])),
+                    format!("after healing, flush_meta and shrink_caches the device itself reads {} at guest block {:#x}; explained by the acknowledged operations: {:?}", describe_word(got[b]), b * BLK, allowed[b].iter().map(|x| describe_word(Some(*x))).collect::<Vec<_>>()),
+                    hist,
+                    plan,
+                ));
+                return out;
+            }
+        }
+        // one more metadata update in the last table, flush, reopen
+        let last = (vsize - cs) / cs * cs;
+        let tagw = 0x7e;
+        let r1 = w.step(&Op::Write { off: last, len: BLK, tag: tagw });
+        let r2 = w.step(&Op::Flush);
+        if r1.ok && r2.ok {
+            allowed[(last as usize) / BLK] = vec![spec::word(tagw, 0)];
+            let sim3 = Sim::new(w.sim.borrow().files.clone());
+            if let Ok(d3) = open_chain(&sim3, 0, &self.cfg, false) {
+                let got = crate::lin::read_all(&d3, vsize as usize, 1usize << self.cfg.bs_bits);
+                if let Some(b) = (0..nblk).find(|b| !got[*b].map_or(false, |v| allowed[*b].contains(&v))) {
+                    out.push(self.viol(
+                        format!("acknowledged-data-lost-after-heal-and-further-use:got-{}", classify_word(got[b])),
+                        format!("after healing, flush, shrink, one more write + flush, a device opened on the file reads {} at guest block {:#x}; explained: {:?}", describe_word(got[b]), b * BLK, allowed[b].iter().map(|x| describe_word(Some(*x))).collect::<Vec<_>>()),
+                        hist,
+                        plan,
+                    ));
+                }
+            }
+        } else if r1.panic.is_some() || r2.panic.is_some() {
+            out.push(self.viol("panic:use-after-heal".into(), format!("write/flush after healing panicked: {:?} {:?}", r1.panic, r2.panic), hist, plan));
+        } else {
+            out.push(self.viol(format!("later-op-failed:use-after-heal:{}", err_category(r1.err.as_deref().or(r2.err.as_deref()).unwrap_or(""))), format!("write {} / flush {} after healing", r1.short(), r2.short()), hist, plan));
+        }
         out
     }
 }
